@@ -46,11 +46,13 @@ End RT.
 (* ---- bitmap ---- *)
 Inductive pbop := PB (o : op) | PBQ (qs : list bq) | PBRT (qs : list bq).
 Inductive pbout := PBO (o : out) | PBL (l : list bans).
-Definition pb_step (s : bstate) (o : pbop) : bstate * pbout * list N :=
+Definition idtab := (list (N * bytes) * list N)%type.   (* id table, order of the ids as JSON object keys *)
+Definition pb_step (t : idtab) (s : bstate) (o : pbop) : bstate * pbout * list N :=
   match o with
   | PB o => let '(s', r, _) := Bitmap.step s o in (s', PBO r, [])
   | PBQ qs => (s, PBL (map (b_query s) qs), [])
-  | PBRT qs => let s' := b_unmarshal (b_marshal s) in (s', PBL (map (b_query s') qs), [])
+  | PBRT qs => let s' := b_roundtrip (fst t) (snd t) s in
+               (s', PBL (map (b_query s') qs), mk1204 (fst t) (map fst (b_alloc s)))
   end.
 Definition pb_accept (last : option (list bans)) (o : pbop) (r : pbout) : option (list bans) + N :=
   match o, r with
@@ -68,15 +70,17 @@ Definition pbout_eqb (a b : pbout) : bool :=
   | PBL x, PBL y => list_eqb bans_eqb x y
   | _, _ => false
   end.
-Definition pbcase := ((N * N * N * N) * list (pbop * pbout))%type.
+Definition pbcase := ((N * N * N * N) * idtab * list (pbop * pbout))%type.
 Definition run_rt_bitmap (cs : list pbcase) : list (list N) :=
-  check_all pb_step pb_accept pbout_eqb 1
-    (map (fun c : pbcase => (binit (mkgeo (fst c)), @None (list bans), snd c)) cs).
+  concat (map (fun ic : N * pbcase =>
+     let '(g, t, tr) := snd ic in
+     renum (fst ic) (check_all (pb_step t) pb_accept pbout_eqb 1 [(binit (mkgeo g), @None (list bans), tr)]))
+     (indexed cs)).
 
 (* ---- epoch ---- *)
 Inductive peop := PEAlloc (h : N) | PERenew (h : N) | PERelease (h : N) | PEAdvance | PEQ (qs : list eq_) | PERT (qs : list eq_).
 Inductive peout := PEO (r : ret) | PEL (l : list ret) | PEFail.
-Definition pe_step (s : estate) (o : peop) : estate * peout * list N :=
+Definition pe_step (t : idtab) (s : estate) (o : peop) : estate * peout * list N :=
   match o with
   | PEAlloc h => match e_alloc s h with
                  | (s', Some ip) => (s', PEO (RUnit ip), [])
@@ -86,8 +90,8 @@ Definition pe_step (s : estate) (o : peop) : estate * peout * list N :=
   | PERelease h => (e_release s h, PEO ROk, [])
   | PEAdvance => let s' := e_advance s in (s', PEO (REpoch (e_epoch s')), [])
   | PEQ qs => (s, PEL (map (e_query s) qs), [])
-  | PERT qs => match e_unmarshal (e_marshal s) with
-               | Some s' => (s', PEL (map (e_query s') qs), [])
+  | PERT qs => match e_roundtrip (fst t) (snd t) s with
+               | Some s' => (s', PEL (map (e_query s') qs), mk1204 (fst t) (map fst (e_sub s)))
                | None => (s, PEFail, [])
                end
   end.
@@ -111,20 +115,22 @@ Definition peout_eqb (a b : peout) : bool :=
   | PEFail, PEFail => true
   | _, _ => false
   end.
-Definition pecase := ((N * N * N * N) * list (peop * peout))%type.   (* (base, ones, pl, grace) *)
+Definition pecase := ((N * N * N * N) * idtab * list (peop * peout))%type.   (* (base, ones, pl, grace) *)
 Definition run_rt_epoch (cs : list pecase) : list (list N) :=
-  check_all pe_step pe_accept peout_eqb 1
-    (map (fun c : pecase => let '(base, ones, pl, grace) := fst c in
-                            (e_init base ones pl grace, @None (list ret), snd c)) cs).
+  concat (map (fun ic : N * pecase =>
+     let '((base, ones, pl, grace), t, tr) := snd ic in
+     renum (fst ic) (check_all (pe_step t) pe_accept peout_eqb 1 [(e_init base ones pl grace, @None (list ret), tr)]))
+     (indexed cs)).
 
 (* ---- allocation store ---- *)
 Inductive pmop := PM (o : mop) | PMQ (qs : list mq) | PMRT (qs : list mq).
 Inductive pmout := PMO (r : ret) | PML (l : list mans).
-Definition pm_step (s : mstate) (o : pmop) : mstate * pmout * list N :=
+Definition pm_step (t : idtab) (s : mstate) (o : pmop) : mstate * pmout * list N :=
   match o with
   | PM o => let '(s', r) := m_step s o in (s', PMO r, [])
   | PMQ qs => (s, PML (map (m_query s) qs), [])
-  | PMRT qs => let s' := m_roundtrip s in (s', PML (map (m_query s') qs), [])
+  | PMRT qs => let s' := m_roundtrip_ids (fst t) s in
+               (s', PML (map (m_query s') qs), mk1204 (fst t) (map sr_sub (ms_recs s)))
   end.
 Definition pm_accept (last : option (list mans)) (o : pmop) (r : pmout) : option (list mans) + N :=
   match o, r with
@@ -142,6 +148,15 @@ Definition pmout_eqb (a b : pmout) : bool :=
   | PML x, PML y => list_eqb mans_eqb x y
   | _, _ => false
   end.
-Definition pmcase := list (pmop * pmout).
+Definition pmcase := (idtab * list (pmop * pmout))%type.
 Definition run_rt_store (cs : list pmcase) : list (list N) :=
-  check_all pm_step pm_accept pmout_eqb 1 (map (fun c : pmcase => (minit, @None (list mans), c)) cs).
+  concat (map (fun ic : N * pmcase =>
+     renum (fst ic) (check_all (pm_step (fst (snd ic))) pm_accept pmout_eqb 1 [(minit, @None (list mans), snd (snd ic))]))
+     (indexed cs)).
+
+(* ---- json_coerce against the real encoding/json: a case is a list of (string, what Marshal+Unmarshal made of it) ---- *)
+Definition jc_step (s : unit) (o : bytes) : unit * bytes * list N := (tt, json_coerce o, []).
+Definition jc_accept (s : unit) (o r : bytes) : unit + N := inl tt.
+Definition jccase := list (bytes * bytes).
+Definition run_jsoncoerce (cs : list jccase) : list (list N) :=
+  check_all jc_step jc_accept bytes_eqb 1 (map (fun c : jccase => (tt, tt, c)) cs).
